@@ -66,11 +66,14 @@ class ExtractError(Exception):
 # Lexical masking: same-length copy of the source in which comments, string/char literal
 # contents are replaced by spaces (newlines kept), so that brace matching and regexes are safe.
 # --------------------------------------------------------------------------------------------
-def mask(src):
+def mask(src, literals=True):
+    """blank comments and (if `literals`) the contents of string/char literals"""
     out = list(src)
     i, n = 0, len(src)
 
-    def blank(a, b):
+    def blank(a, b, lit=False):
+        if lit and not literals:
+            return
         for k in range(a, b):
             if out[k] != "\n":
                 out[k] = " "
@@ -102,19 +105,19 @@ def mask(src):
                 start = i + m.end()
                 end = src.find('"' + hashes, start)
                 end = n if end < 0 else end
-                blank(start, end)
+                blank(start, end, True)
                 i = end + 1 + len(hashes)
             else:
                 j = i + m.end()
                 while j < n and src[j] != '"':
                     j += 2 if src[j] == "\\" else 1
-                blank(i + m.end(), j)
+                blank(i + m.end(), j, True)
                 i = j + 1
         elif c == "'":
             # char literal or lifetime
             m = re.match(r"'(\\.[^']*|[^'\\])'", src[i:])
             if m:
-                blank(i + 1, i + m.end() - 1)
+                blank(i + 1, i + m.end() - 1, True)
                 i += m.end()
             else:
                 i += 1
@@ -124,27 +127,8 @@ def mask(src):
 
 
 def mask_comments(src):
-    """like mask() but only comments are blanked (string/char literals stay)"""
-    m = mask(src)
-    out = list(src)
-    i, n = 0, len(src)
-    while i < n:
-        if src.startswith("//", i) and m[i] == " ":
-            j = src.find("\n", i)
-            j = n if j < 0 else j
-            for k in range(i, j):
-                out[k] = " "
-            i = j
-        elif src.startswith("/*", i) and m[i] == " ":
-            j = i
-            while j < n and m[j] in " \n":
-                if out[j] != "\n":
-                    out[j] = " "
-                j += 1
-            i = j
-        else:
-            i += 1
-    return "".join(out)
+    """like mask() but only comments are blanked (string/char literals stay, also when they contain `//`)"""
+    return mask(src, literals=False)
 
 
 OPEN, CLOSE = "([{", ")]}"
